@@ -89,7 +89,9 @@ func IsShort(e error) bool { return isShort(e) }
 // DecodeBody decodes a packet given its first header byte and exactly its body bytes.
 func DecodeBody(version byte, hdr byte, body []byte, strict bool) (*Packet, error) {
 	p := &Packet{Type: hdr >> 4, Flags: hdr & 0x0f, Version: version}
-	mal := func(f string, a ...any) error { return fmt.Errorf("%w: %s: %s", ErrMalformed, TypeNames[p.Type], fmt.Sprintf(f, a...)) }
+	mal := func(f string, a ...any) error {
+		return fmt.Errorf("%w: %s: %s", ErrMalformed, TypeNames[p.Type], fmt.Sprintf(f, a...))
+	}
 	if p.Type == 0 {
 		return nil, mal("reserved packet type 0")
 	}
